@@ -589,6 +589,7 @@ def run(chk):
            'result' % q, fi=m.funcs[q], node=x)
   end_of_chain(chk, 'C16-R3')
   copies_are_fresh(chk, 'C16-R3')
+  constraints_unconditional(chk, 'C16-R3')
   tg = repo.func('reference_algebra.TypeReference.Target')
   ci_ = m.cls('TypeReference')
   def follows_targets(w):
@@ -680,3 +681,27 @@ def copies_are_fresh(chk, rid):
            fi=fi, node=v.cfg.stmt[bad[0]] if bad else None)
   if count < 3:
     raise AnalysisError('TypeStructureCopier: %d Copy* methods recognised' % count)
+
+
+def constraints_unconditional(chk, rid):
+  """The outcome for a clash-free set of constraints does not depend on the
+  order in which they are unified only if WHICH constraints an expression
+  contributes does not depend on what is known when it is visited: the
+  helpers that translate `b in a` and `a.f = b` into unifications issue each
+  of their unifications on every path (no test of the current types)."""
+  repo = chk.repo
+  for fq, least in (('reference_algebra.UnifyListElement', 2),
+                    ('reference_algebra.UnifyRecordField', 1)):
+    v = FnView(repo, fq)
+    calls = [(n, c) for n, c in v.all_calls() if call_tail(c) == 'Unify']
+    if len(calls) < least:
+      raise AnalysisError('%s: %d unifications recognised (expected >= %d)' % (fq, len(calls), least))
+    cond = [c for n, c in calls if not v.cfg.must_pass_after(v.cfg.entry, [n])]
+    tests = [norm(e, 50) for n, c in calls for e, val in v.guards(n)]
+    chk.ob(rid, not cond, None,
+           '%s issues each of its unifications unconditionally' % fq.split('.')[-1],
+           '`%s` is issued only under a test of the types known so far (%s): whether the '
+           'constraint exists depends on the order in which expressions are visited - a clash '
+           'is found in one order and missed in the other' % (
+               norm(cond[0], 60) if cond else '', '; '.join(tests[:2])), fi=v.fi,
+           node=cond[0] if cond else None)
